@@ -189,28 +189,30 @@ def check_stream(case, ctx):
             ctx.label("rejected:" + type(ex).__name__)
             return None
         return exc_fail(name, ex)
-    if len(out1) < k + 1 or p1 >= n1:
-        ctx.label("short-output")  # fewer than k rows exist in n1 source rows: nothing to compare
+    if len(out2) < k + 1:
+        ctx.label("short-output")  # fewer than k rows exist even in the long source: nothing to compare
         return None
-    if out1 != out2:
-        return Fail(name + "/prefix-differs", "first %d items differ between %d and %d source rows: %r vs %r" % (k + 1, n1, 100 * n1, out1, out2))
-    if p1 != p2:
-        return Fail(name + "/pulls-depend-on-length", "%d items pulled %d rows from a %d-row source but %d rows from a %d-row source" % (k + 1, p1, n1, p2, 100 * n1))
-    # need(k): shortest prefix on which the same k+1 items come out
-    lo, hi = 0, p1
+    # need(k): shortest source prefix on which the same k+1 items come out
+    lo, hi = 0, p2
     while lo < hi:
         mid = (lo + hi) // 2
         try:
             o, _ = _take(factory, hdr, block, mid, k)
         except Exception:
             o = None
-        if o == out1:
+        if o == out2:
             hi = mid
         else:
             lo = mid + 1
     need = lo
-    if p1 > need + ahead:
-        return Fail(name + "/pulls-exceed-bound", "%d items need %d source rows but %d were pulled (allowed look-ahead %d)" % (k + 1, need, p1, ahead))
+    if p2 > need + ahead:
+        return Fail(name + "/pulls-exceed-bound", "%d items need %d source rows but %d were pulled from a %d-row source (allowed look-ahead %d)" % (k + 1, need, p2, 100 * n1, ahead))
+    if need + ahead < n1:
+        # the short source is long enough: same output, same pulls
+        if out1 != out2:
+            return Fail(name + "/prefix-differs", "first %d items differ between %d and %d source rows: %r vs %r" % (k + 1, n1, 100 * n1, out1, out2))
+        if p1 != p2:
+            return Fail(name + "/pulls-depend-on-length", "%d items pulled %d rows from a %d-row source but %d rows from a %d-row source" % (k + 1, p1, n1, p2, 100 * n1))
     ctx.nontrivial(k >= 1 and need < n1 / 2)
     return None
 
